@@ -479,7 +479,9 @@ def check_template_symbols(case, impl):
             props = parse_props(od[0])
             keys = od[0].split("keys=[", 1)[1].split("]", 1)[0].split(",")
             before = [x.split() for x in lines[:li + 1]]
-            hardened = any(w[0] in ("frz", "seal", "pe") and w[1 if w[0] != "pe" else 2] == "o%d" % oid for w in before)
+            # a templated built-in is one object per runtime: every id of this kind in the case names the same object
+            aliases = set("o%d" % j for j, (k2, _) in enumerate(case["objs"]) if k2 == kind)
+            hardened = any(w[0] in ("frz", "seal", "pe") and w[1 if w[0] != "pe" else 2] in aliases for w in before)
             for name, want in exp.items():
                 tk = WK[name]
                 if any(len(w) > 3 and w[0] in ("def", "set", "del") and w[3] == tk for w in before):
@@ -709,35 +711,13 @@ def shrink_case(ctx, h, model, case):
     return {"objs": case["objs"], "ops": small, "monitored": False}
 
 
-SIG_ARGS_ITER = "argumentsObject:iterator-hides-mapped-slot-flags"
-SIG_TA_DELETE = "typedArray:delete-formats-error-message-eagerly"
-SIG_FUNC_PROTO_POS = "funcObject:prototype-key-position-depends-on-materialisation"
 SIG_THROWER_SLOPPY = "throwTypeError:does-not-throw-for-sloppy-function-receiver"
 
 
 def seq_signature(case, lines=None, dd=None, a=None, b=None):
-    """class of a (minimised) diverging sequence: its op/entry-point shape.  One known defect is recognised narrowly: a case
-    with a mapped arguments object whose first diverging answer differs from the model ONLY in isFrozen / isSealed / for-in
-    (the consumers of argumentsPropIter, which shows a mapped slot as a plain value)."""
-    if a is not None and b is not None and dd is not None and dd < len(a) and dd < len(b) \
-            and any(k == "args" for k, _ in case["objs"]):
-        def blank(l):
-            return re.sub(r"(fz|sl)=[tf]|forin=\[[^\]]*\]", "_", strip_impl(l)[0])
-        if blank(a[dd]) == blank(strip_model(b[dd])):
-            return SIG_ARGS_ITER
-    if a is not None and b is not None and dd is not None and dd < len(a) and dd < len(b) \
-            and any(k == "func" for k, _ in case["objs"]):
-        def noproto(l):
-            l = re.sub(r"sprototype(:[^,\]]*)?,?", "", strip_impl(l)[0])
-            return l.replace(",]", "]")
-        if noproto(a[dd]) == noproto(strip_model(b[dd])):
-            return SIG_FUNC_PROTO_POS
-    if a is not None and b is not None and lines is not None and dd is not None and dd < len(a) and dd < len(b) and dd < len(lines):
-        op = lines[dd].split()
-        if op[0] == "del" and op[1] in ("S", "R") and op[2][1:].isdigit() and int(op[2][1:]) < len(case["objs"]) \
-                and case["objs"][int(op[2][1:])][0] == "u8" and strip_impl(a[dd])[0].split(" ")[0] == "throw" \
-                and strip_model(b[dd]).split(" ")[0] == "f":
-            return SIG_TA_DELETE
+    """class of a (minimised) diverging sequence: its op/entry-point shape.  One known finding is recognised, narrowly (the
+    rules for the arguments iterator, the typed-array delete message and the function `prototype` key position are gone:
+    repaired in /repo by 52d9686, 4b86f46, fcdbd47 - such divergences alarm again)."""
     if a is not None and b is not None and lines is not None and dd is not None and dd < len(a) and dd < len(b) and dd < len(lines):
         # %ThrowTypeError% reached as the `callee` accessor of a strict arguments object, with a sloppy ordinary function
         # as the receiver: goja's thrower does not throw then.  Only the outcome token differs, the dumps are equal.
@@ -780,6 +760,15 @@ def main(ctx):
     if have_tie:
         ctx.regen()
     targets = ["GojaModel.C04.Props", "GojaModel.C04.PropsArray", "model_c04"] + (["GojaModel.C04.Tie"] if have_tie else [])
+    # PropsArray imports lean/GojaModel/C07, which its owner may be rebuilding at this moment (olean files vanish for a
+    # while): let such a transient state settle before the judged build.  Errors in C04's own files are never waited for.
+    for _ in range(3):
+        rc0, out0, err0 = sh(["lake", "build"] + targets, cwd=LEAN, timeout=3000)
+        txt0 = out0 + "\n" + err0
+        if rc0 == 0 or re.search(r"^error: GojaModel/C04/", txt0, re.M) or not re.search(r"GojaModel/C07|GojaModel\.C07", txt0):
+            break
+        ctx.log("lake build disturbed by a concurrent rebuild of GojaModel/C07; retrying in 40 s")
+        time.sleep(40)
     ok, errs = ctx.lake_build(targets)
     lean_ok = ok
     if not ok:
